@@ -258,8 +258,10 @@ for _n in (1, 2, 3, 4):
                       f'string of {_n} symbolic characters over the 10-character alphabet that drives quoting/escaping decisions (", \', backslash, newline, tab, NUL, U+2028, a, é, U+1F600)',
                       tier='quick' if _n <= 3 else 'thorough', budget=900, stubs=['str.encode("unicode_escape") is C: the escaped character is realised on that path (finite alphabet)'],
                       out='strings longer than 4; characters outside the alphabet (they take the same branches as one of its members)'))
-CELLS.append(tletter.letter_cell('T1', 'put_line_comment', 'x = 1  # old ¡\ny = "¤"\n', _s_put_comment, queries=_q_comments, tier='quick', extra='¢£'))
-CELLS.append(tletter.letter_cell('T1', 'put_line_comment_block', 'if c:  # ¡\n    x = 1  # s\n    y = 2\nz = 3\n', _s_put_comment_blk, queries=_q_comments, tier='quick', extra='¢£¤'))
+CELLS.append(tletter.letter_cell('T1', 'put_line_comment', 'x = 1  # old ¡\ny = "¤"\n', _s_put_comment, queries=_q_comments, tier='quick', extra='¢£',
+                                 pre=lambda xs: not chr(xs[2]).isspace()))   # documented: the comment text is returned stripped of trailing whitespace (U+3000 counts)
+CELLS.append(tletter.letter_cell('T1', 'put_line_comment_block', 'if c:  # ¡\n    x = 1  # s\n    y = 2\nz = 3\n', _s_put_comment_blk, queries=_q_comments, tier='quick', extra='¢£¤',
+                                 pre=lambda xs: not chr(xs[1]).isspace() and not chr(xs[2]).isspace() and not chr(xs[3]).isspace()))
 _Q = {'list4c', 'ifbody3', 'dict3', 'tuple3', 'uni_list', 'handlers'}
 for _c in pc.CARRIERS:
     for _form in ('cut_put', 'own_copy', 'own_ast', 'own_src'):
